@@ -60,6 +60,7 @@ for e in ("get", "branch", "exists", "contains", "getitem", "set", "setitem", "d
 for e in ("set", "setitem"):
     MATRIX[("S", e, "value")] = BYTES_BAD
 MATRIX[("S", "ctor", "key_size")] = ["0", "33", "-1"]
+MATRIX[("S", "proof_update", "hashes")] = ["empty_first_bit", "one_short_last_bit"]
 MATRIX[("S", "from_db", "root")] = BYTES_BAD + ["short", "long"]
 MATRIX[("S", "calc_root", "key")] = BYTES_BAD
 MATRIX[("S", "calc_root", "value")] = BYTES_BAD
@@ -389,9 +390,23 @@ class SW(BadMixin, c14.SWorld):
             x = make_bad(kind, smt.root_hash)
         elif arg == "branch":
             x = good_branch[:-1] if kind == "short" else good_branch + (bytes(32),)
+        elif arg == "hashes":
+            x = None
         else:
             x = int(kind)
-        if entry == "proof_update":
+        if entry == "proof_update" and arg == "hashes":
+            # a hash list that is too short for where the keys first differ
+            if self.proof is None:
+                return "skip"
+            p = self.proof
+            tk = int.from_bytes(p.key, "big")
+            D = ks * 8
+            if kind == "empty_first_bit":
+                other, hashes = (tk ^ (1 << (D - 1))).to_bytes(ks, "big"), ()
+            else:
+                other, hashes = (tk ^ 1).to_bytes(ks, "big"), good_branch[: D - 1]
+            fn = lambda: p.update(other, v, hashes)
+        elif entry == "proof_update":
             if self.proof is None:
                 return "skip"
             p = self.proof
